@@ -38,6 +38,7 @@ func init() {
 		Rule{ID: "R19e", Doc: "in-flight key components", Floor: 4, Run: r19e},
 		Rule{ID: "R08a", Doc: "stores only on success (shared with C08)", Floor: 4, Run: r08a},
 		Rule{ID: "R08c", Doc: "a non-success refresh never displaces a stored entry (set-if-absent for every rcode but NOERROR; shared with C08)", Floor: 5, Run: r08c},
+		Rule{ID: "R12f", Doc: "the refresh is keyed and forwarded with the client address of the hit (shared with C12)", Floor: 6, Run: r12f},
 	)
 }
 
